@@ -1,6 +1,6 @@
 /*
  * executor for family `ladder` (property C17): the allocation / release pattern of dup_ustrings, cif_value_clone,
- * cif_value_insert_element_at and cif_value_set_element_at under one failed allocation (see lean/Driver/Fam/Ladder.lean for the request language).
+ * cif_value_insert_element_at, cif_value_set_element_at and cif_loop_get_names under one failed allocation (see lean/Driver/Fam/Ladder.lean for the request language).
  * dup_ustrings is file-static in loop.c, which is therefore #included (HARNESS exclude_objs ["loop"]).
  */
 #include "cifio.h"
@@ -105,6 +105,28 @@ static void handle(int argc, char **argv) {
         ARM(); rc = cif_value_insert_element_at(lst, 1, e); DISARM();
         summary(rc);
         cif_value_free(filler); cif_value_free(e); cif_value_free(lst);
+    } else if (argc == 4 && (!strcmp(argv[1], "names") || !strcmp(argv[1], "namesfixed"))) {
+        /* cif_loop_get_names on a stored loop with n item names _a0 … (SQLite's own allocations are not wrapped here) */
+        int n = atoi(argv[2]), i;
+        cif_tp *cif = NULL;
+        cif_block_tp *blk = NULL;
+        cif_loop_tp *loop = NULL;
+        UChar code[] = { 'b', 0 };
+        UChar **names, **got = NULL;
+        if (n < 1 || n > 60) { OUT("bad-op"); return; }
+        names = (UChar **) calloc(n + 1, sizeof(UChar *));
+        for (i = 0; i < n; i++) { char b[16]; int j; snprintf(b, sizeof b, "_a%d", i); names[i] = (UChar *) calloc(16, sizeof(UChar)); for (j = 0; b[j]; j++) names[i][j] = (UChar) b[j]; }
+        if (cif_create(&cif) != CIF_OK || cif_create_block(cif, code, &blk) != CIF_OK
+                || cif_container_create_loop(blk, NULL, names, &loop) != CIF_OK) OUT("setup-failed ");
+        verif_arm(0, atol(argv[3]));
+        ARM(); rc = loop ? cif_loop_get_names(loop, &got) : -98; DISARM();
+        summary(rc);
+        if (rc == CIF_OK && got) { for (i = 0; got[i]; i++) free(got[i]); if (i != n) OUT(" !NAMES%d", i); free(got); }
+        if (loop) cif_loop_free(loop);
+        if (blk) cif_container_free(blk);
+        if (cif) cif_destroy(cif);
+        for (i = 0; i < n; i++) free(names[i]);
+        free(names);
     } else if (argc >= 4 && !strcmp(argv[1], "set")) {
         /* the target is element 1 of [ ? [ 'hi' 1.5(2) ] ? ]: cleaning it releases pre-existing blocks only */
         cif_value_tp *lst = NULL, *e, *filler = NULL, *old = NULL, *probe = NULL;
